@@ -681,7 +681,7 @@ def trained_precond(rng, steps=None, **kw):
     damping = rng.choice([0.001, 0.01, lambda s: 0.001 * (s + 1)])
     p = KFACPreconditioner(model, compute_method=method, damping=damping,
                            factor_update_steps=rng.choice([1, 2]), inv_update_steps=rng.choice([1, 2, 4]),
-                           kl_clip=rng.choice([0.001, 1.0]), lr=rng.choice([0.1, 1.0]),
+                           kl_clip=rng.choice([0.001, 1.0, None]), lr=rng.choice([0.1, 1.0]),
                            compute_eigenvalue_outer_product=rng.random() < 0.5,
                            update_factors_in_hook=rng.random() < 0.5,
                            **kw)
